@@ -29,6 +29,7 @@ type Config struct {
 	Concrete   map[string][]string // concrete inputs (translator validation mode)
 	Deadline   time.Time
 	NoSlice    bool
+	StepProf   bool
 	Calib      map[string]bool
 	Only       []string
 }
@@ -112,6 +113,8 @@ type Worker struct {
 	modelHits int
 	accesses  map[string]*accessRec
 	lockEdges map[string]*lockEdge
+	fnSteps   map[*ssa.Function]int
+	callInfo  map[*ssa.Function]*callInfo
 	harness  *ssa.Function
 }
 
@@ -211,6 +214,7 @@ type RunResult struct {
 	Accesses   []*accessRec
 	Races      []*raceRec
 	LockOrder  []string
+	StepsByFn  map[string]int
 	LockEdges  int
 }
 
@@ -234,7 +238,7 @@ func Explore(prog *ssa.Program, harness *ssa.Function, cfg *Config, redirect map
 		}
 		w := &Worker{id: i, cfg: cfg, ex: ex, prog: prog, ts: ts, solver: s,
 			stubsHit: map[string]int{}, fnsHit: map[*ssa.Function]int{}, redirect: redirect,
-			kfOpen: kfOpen, initPkgs: initPkgs, accesses: map[string]*accessRec{}, lockEdges: map[string]*lockEdge{}, extCache: map[*ssa.Function]extFn{}, fnInfo: map[*ssa.Function]*fnInfo{}, harness: harness}
+			kfOpen: kfOpen, initPkgs: initPkgs, accesses: map[string]*accessRec{}, lockEdges: map[string]*lockEdge{}, fnSteps: map[*ssa.Function]int{}, callInfo: map[*ssa.Function]*callInfo{}, extCache: map[*ssa.Function]extFn{}, fnInfo: map[*ssa.Function]*fnInfo{}, harness: harness}
 		workers[i] = w
 		wg.Add(1)
 		go func() {
@@ -297,6 +301,14 @@ func Explore(prog *ssa.Program, harness *ssa.Function, cfg *Config, redirect map
 		}
 		for f, n := range w.fnsHit {
 			rr.Functions[f.String()] += n
+		}
+		if cfg.StepProf {
+			if rr.StepsByFn == nil {
+				rr.StepsByFn = map[string]int{}
+			}
+			for f, n := range w.fnSteps {
+				rr.StepsByFn[f.String()] += n
+			}
 		}
 		w.solver.Close()
 	}
